@@ -1,5 +1,8 @@
 /-
-Checked-index model of `gdef.Read` (opentype/gdef/gdef.go:49-139).  The sub-readers
+Checked-index model of `gdef.Read` (opentype/gdef/gdef.go:49-148, the REPAIRED code: every
+distinct mark-glyph-set coverage offset is decoded only once, gdef.go:127-142).  The pre-repair
+loop (one `coverage.ReadSet` per offset ENTRY) is kept as `readSetsOld` / `readOld`, to state what
+the repair removed.  The sub-readers
 `classdef.Read(p, pos)` and `coverage.ReadSet(p, pos)` are abstract parameters: functions from
 the absolute position to an outcome carrying the size of the decoded table and its cost.
 -/
@@ -27,13 +30,31 @@ def readOffsets (b : Bytes) : Nat → Nat → List Nat → Cost → Outcome (Lis
     let v ← w32 "gdef.go:121#ReadUint32" w 0
     readOffsets b n (pos + 4) (v :: acc) c.tick
 
-/-- gdef.go:128-133: `for i := range table.MarkGlyphSets { …ReadSet(p, pos+int64(coverageOffsets[i])) }` -/
-def readSets (cov : Sub) (base : Nat) (offs : List Nat) : Nat → Nat → List Nat → Cost → Outcome (List Nat × Cost)
+/-- gdef.go:131-142 (repaired):
+`for i := range table.MarkGlyphSets { offs := coverageOffsets[i]; set, seen := sets[offs];
+   if !seen { set, err = coverage.ReadSet(p, pos+int64(offs)); …; sets[offs] = set }; table.MarkGlyphSets[i] = set }`.
+The Go map `sets` is the association list `sets` (offset ↦ size of the decoded set; map reads and
+writes cannot panic).  A hit costs the iteration step only; a miss costs the sub-read plus one
+allocated map entry. -/
+def readSets (cov : Sub) (base : Nat) (offs : List Nat) :
+    Nat → Nat → List (Nat × Nat) → List Nat → Cost → Outcome (List Nat × Cost)
+  | 0, _, _, acc, c => .ok (acc.reverse, c)
+  | n+1, i, sets, acc, c => do
+    let o ← idx "gdef.go:132#coverageOffsets[i]" offs i
+    match sets.lookup o with
+    | some sz => readSets cov base offs n (i + 1) sets (sz :: acc) c.tick
+    | none => do
+      let (sz, d) ← cov (base + o)
+      readSets cov base offs n (i + 1) ((o, sz) :: sets) (sz :: acc) ((addCost c.tick d).mem 1)
+
+/-- PRE-REPAIR loop (old gdef.go:128-133; the site labels carry the OLD line numbers):
+`for i := range table.MarkGlyphSets { …ReadSet(p, pos+int64(coverageOffsets[i])) }` -/
+def readSetsOld (cov : Sub) (base : Nat) (offs : List Nat) : Nat → Nat → List Nat → Cost → Outcome (List Nat × Cost)
   | 0, _, acc, c => .ok (acc.reverse, c)
   | n+1, i, acc, c => do
-    let o ← idx "gdef.go:129#coverageOffsets[i]" offs i
+    let o ← idx "gdef.go:129#coverageOffsets[i] (pre-repair)" offs i
     let (sz, d) ← cov (base + o)
-    readSets cov base offs n (i + 1) (sz :: acc) (addCost c.tick d)
+    readSetsOld cov base offs n (i + 1) (sz :: acc) (addCost c.tick d)
 
 def read (cls cov : Sub) (b : Bytes) : Outcome (Table × Cost) := do
   let buf ← readBytes "gdef.go:51#ReadBytes(12)" b 0 12
@@ -76,8 +97,56 @@ def read (cls cov : Sub) (b : Bytes) : Outcome (Table × Cost) := do
   let count ← w16 "gdef.go:118#buf[2],buf[3]" hb 2
   let c ← mkSlice "gdef.go:119#make([]uint32, markGlyphSetCount)" count c
   let (offs, c) ← readOffsets b count (pos + 4) [] c
-  let c ← mkSlice "gdef.go:127#make([]coverage.Set, markGlyphSetCount)" count c
-  let (sets, c) ← readSets cov pos offs count 0 [] c
+  let c ← mkSlice "gdef.go:129#make(map[uint32]coverage.Set)" 1 c   -- the (empty) map object
+  let c ← mkSlice "gdef.go:130#make([]coverage.Set, markGlyphSetCount)" count c
+  let (sets, c) ← readSets cov pos offs count 0 [] [] c
+  .ok (⟨gc, mac, some sets⟩, c)
+
+/-- PRE-REPAIR `gdef.Read`: identical to `read` up to the mark-glyph-set loop, which decodes one
+coverage table per offset entry (`readSetsOld`); no map. -/
+def readOld (cls cov : Sub) (b : Bytes) : Outcome (Table × Cost) := do
+  let buf ← readBytes "gdef.go:51#ReadBytes(12)" b 0 12
+  let c := Cost.zero.tick
+  let major ← w16 "gdef.go:55#buf[0],buf[1]" buf 0
+  let minor ← w16 "gdef.go:56#buf[2],buf[3]" buf 2
+  if major ≠ 1 ∨ (minor ≠ 0 ∧ minor ≠ 2 ∧ minor ≠ 3) then .err "unsupported" else
+  let glyphClassDefOffset ← w16 "gdef.go:63#buf[4],buf[5]" buf 4
+  let _attachListOffset ← w16 "gdef.go:64#buf[6],buf[7]" buf 6
+  let _ligCaretListOffset ← w16 "gdef.go:65#buf[8],buf[9]" buf 8
+  let markAttachClassDefOffset ← w16 "gdef.go:66#buf[10],buf[11]" buf 10
+  let (markGlyphSetsDefOffset, c) ←
+    (if minor ≥ 2 then do
+      let w ← readBytes "gdef.go:69#ReadUint16" b 12 2
+      let v ← w16 "gdef.go:69#ReadUint16" w 0
+      pure (v, c.tick)
+    else pure (0, c) : Outcome (Nat × Cost))
+  let c ←
+    (if minor ≥ 3 then do
+      let _w ← readBytes "gdef.go:76#ReadUint32" b 14 4
+      pure c.tick
+    else pure c : Outcome Cost)
+  let c := c.mem 1                                           -- &Table{}
+  let (gc, c) ←
+    (if glyphClassDefOffset ≠ 0 then do
+      let (sz, d) ← cls glyphClassDefOffset
+      pure (some sz, addCost c d)
+    else pure (none, c) : Outcome (Option Nat × Cost))
+  let (mac, c) ←
+    (if markAttachClassDefOffset ≠ 0 then do
+      let (sz, d) ← cls markAttachClassDefOffset
+      pure (some sz, addCost c d)
+    else pure (none, c) : Outcome (Option Nat × Cost))
+  if markGlyphSetsDefOffset = 0 then .ok (⟨gc, mac, none⟩, c) else
+  let pos := markGlyphSetsDefOffset
+  let hb ← readBytes "gdef.go:107#ReadBytes(4)" b pos 4
+  let c := c.tick
+  let format ← w16 "gdef.go:111#buf[0],buf[1]" hb 0
+  if format ≠ 1 then .err "unsupported" else
+  let count ← w16 "gdef.go:118#buf[2],buf[3]" hb 2
+  let c ← mkSlice "gdef.go:119#make([]uint32, markGlyphSetCount)" count c
+  let (offs, c) ← readOffsets b count (pos + 4) [] c
+  let c ← mkSlice "gdef.go:127#make([]coverage.Set, markGlyphSetCount) (pre-repair)" count c
+  let (sets, c) ← readSetsOld cov pos offs count 0 [] c
   .ok (⟨gc, mac, some sets⟩, c)
 
 end SfntV.Total.Gdef
